@@ -90,6 +90,15 @@ fn worker(args: &[String]) -> i32 {
         }
     }
     quiet_panics();
+    // address-space cap: runaway recursion / allocation in one case must kill this worker (and be attributed to
+    // that case by the orchestrator), not the machine
+    {
+        let gb: u64 = std::env::var("VERIF_WORKER_MEM_GB").ok().and_then(|s| s.parse().ok()).unwrap_or(12);
+        let lim = libc::rlimit { rlim_cur: gb << 30, rlim_max: gb << 30 };
+        unsafe {
+            libc::setrlimit(libc::RLIMIT_AS, &lim);
+        }
+    }
     let keys = known_keys(prop);
     let mut known = Sw::from_names(&keys.iter().map(|s| s.as_str()).collect::<Vec<_>>());
     if let Ok(list) = std::env::var("VERIF_CLASSIFY") {
@@ -136,6 +145,9 @@ struct WorkerRun {
     marker: PathBuf,
     skip: Vec<String>,
     started: Instant,
+    /// last marker content seen and when it last changed (stall detection)
+    last_mark: String,
+    last_change: Instant,
 }
 
 fn spawn_worker(prop: &str, tier: &str, shard: usize, n: usize, dir: &Path, skip: &[String]) -> WorkerRun {
@@ -150,7 +162,7 @@ fn spawn_worker(prop: &str, tier: &str, shard: usize, n: usize, dir: &Path, skip
         .stderr(Stdio::inherit())
         .spawn()
         .expect("spawn worker");
-    WorkerRun { shard, child, out, marker, skip: skip.to_vec(), started: Instant::now() }
+    WorkerRun { shard, child, out, marker, skip: skip.to_vec(), started: Instant::now(), last_mark: String::new(), last_change: Instant::now() }
 }
 
 fn hash_str(s: &str) -> String {
@@ -180,6 +192,11 @@ fn run(prop: &str, tier_s: &str) -> i32 {
         std::env::var("VERIF_WORKER_TIMEOUT").ok().and_then(|s| s.parse().ok()).unwrap_or(if tier == Tier::Quick { 600 } else { 6 * 3600 }),
     );
 
+    // a case that makes no progress for this long is a hang (each case updates the progress marker)
+    let stall = Duration::from_secs(std::env::var("VERIF_CASE_STALL").ok().and_then(|s| s.parse().ok()).unwrap_or(if tier == Tier::Quick { 45 } else { 600 }));
+    // termination / no stack overflow is part of the statements of C11 (left recursion), C12 (depth) and C20
+    let crash_is_violation = matches!(prop, "C11" | "C12" | "C20");
+
     // replay files of earlier runs of this property are stale once it is re-run
     if let Ok(rd) = std::fs::read_dir(vd.join("replays")) {
         for e in rd.flatten() {
@@ -192,16 +209,24 @@ fn run(prop: &str, tier_s: &str) -> i32 {
     let mut merged: Vec<UnitResult> = vec![];
     let mut crashes: Vec<Value> = vec![];
     let mut machinery_error: Option<String> = None;
+    let mut abandoned_shards = 0u32;
     let mut done = 0;
     while done < jobs {
         std::thread::sleep(Duration::from_millis(20));
         let mut i = 0;
         while i < running.len() {
             let w = &mut running[i];
+            let mut stalled = false;
             let status = match w.child.try_wait() {
                 Ok(Some(st)) => Some(st),
                 Ok(None) => {
-                    if w.started.elapsed() > timeout {
+                    let cur = std::fs::read_to_string(&w.marker).unwrap_or_default();
+                    if cur != w.last_mark {
+                        w.last_mark = cur;
+                        w.last_change = Instant::now();
+                    }
+                    if w.started.elapsed() > timeout || w.last_change.elapsed() > stall {
+                        stalled = w.last_change.elapsed() > stall;
                         let _ = w.child.kill();
                         let _ = w.child.wait();
                         None
@@ -242,9 +267,24 @@ fn run(prop: &str, tier_s: &str) -> i32 {
                 let mark: String = std::fs::read_to_string(&w.marker).unwrap_or_default().chars().filter(|c| !c.is_whitespace()).collect();
                 let how = match status {
                     Some(s) => format!("{s}"),
+                    None if stalled => format!("killed: no progress on this case for {:?} (hang)", stall),
                     None => format!("killed after {:?} (watchdog)", timeout),
                 };
-                if mark.is_empty() || mark == "done" || w.skip.contains(&mark) || w.skip.len() >= 8 {
+                let attributable = !(mark.is_empty() || mark == "done" || w.skip.contains(&mark));
+                if attributable && w.skip.len() >= 5 && crash_is_violation {
+                    // this shard keeps dying on one case after another: the deaths recorded so far are the verdict;
+                    // the shard is abandoned (its remaining cases are not covered: stated in the evidence)
+                    let (ui, gi) = mark.split_once(':').unwrap();
+                    crashes.push(json!({
+                        "engine": "crash", "unit": unit_names.get(ui.parse::<usize>().unwrap_or(0)).cloned().unwrap_or_default(),
+                        "unit_index": ui, "case_index": gi, "how": how,
+                        "categories": ["process_death"],
+                        "detail": format!("worker process died ({how}) while running case index {gi} of unit {ui}; shard {} abandoned after {} deaths", w.shard, w.skip.len() + 1),
+                        "explained_by": [],
+                    }));
+                    abandoned_shards += 1;
+                    done += 1;
+                } else if !attributable || w.skip.len() >= 8 {
                     machinery_error = Some(format!("worker {} died ({how}) at marker {mark:?}; not attributable to one case", w.shard));
                     done += 1;
                 } else {
@@ -291,9 +331,7 @@ fn run(prop: &str, tier_s: &str) -> i32 {
             }
         }
     }
-    // crashes count as violations only for the totality property; elsewhere they are noted
-    // termination / no stack overflow is part of the statements of C11 (left recursion), C12 (depth) and C20
-    let crash_is_violation = matches!(prop, "C11" | "C12" | "C20");
+    // crashes count as violations only where termination is in the statement; elsewhere they are noted
     if crash_is_violation {
         violations.extend(crashes.iter().cloned());
     }
@@ -352,7 +390,8 @@ fn run(prop: &str, tier_s: &str) -> i32 {
             "evaluations": cases,
             "distinct_nontrivial": distinct,
             "rule": "cases are enumerated exhaustively per unit (see units[].desc); distinct_nontrivial counts distinct model outcomes (output value with all probe extents, surviving emissions, primary error) per worker shard, summed; per-mechanism anti-vacuity counters are in units[].counters",
-            "exhaustive": merged.iter().all(|u| u.exhaustive),
+            "exhaustive": merged.iter().all(|u| u.exhaustive) && abandoned_shards == 0 && crashes.is_empty(),
+            "shards_abandoned_after_repeated_deaths": abandoned_shards,
             "samples": samples,
             "units": merged.iter().map(|u| json!({
                 "name": u.name, "desc": u.desc, "cases": u.cases, "model_states": u.states, "model_transitions": u.transitions,
